@@ -26,13 +26,14 @@ def run(chk):
             dist["sizes"][s.meta["sz"]] = dist["sizes"].get(s.meta["sz"], 0) + 1
             dist["slots"][s.ns] = dist["slots"].get(s.ns, 0) + 1
             if done or s.meta["lost"]: nt.append(l)
-            if len(chk.failures) > 10: break
+            if chk.too_many(): break
         chk.note_cases("session-delivery[%s]" % variant, lines, nt, sample_n=1, dist=dist)
     # many unknowns (more than 64, 128: the bit rows span several machine words)
     from . import c07
     scns = []
     for _ in range(6 if chk.quick() else 60):
         scns += [t for t in c07.twin_scenarios(rnd, True, base=c07.wide_loss_base(rnd), positions=lambda npos: []) if t.meta["tag"] == "ref"]
+        scns += [t for t in c07.twin_scenarios(rnd, True, base=c07.high_number_base(rnd), positions=lambda npos: []) if t.meta["tag"] == "ref"]
     lines, impl, outs = session.run(chk, scns, variant="matrix", stream="session-delivery-wide")
     nt = []
     for s, l, raw, out in zip(scns, lines, impl, outs):
@@ -58,7 +59,7 @@ def run(chk):
         for msg in session.oracle_delivery(s, out)[:1]:
             chk.failures.append(core.Failure("with clean reboots before fragments %s: %s" % (sorted(s.meta["positions"]), msg), "session", "matrix", l, raw[:2000], key="c01"))
         nt.append(l)
-        if len(chk.failures) > 10: break
+        if chk.too_many(): break
     chk.note_cases("session-delivery-reboot", lines, nt, sample_n=1, dist={"scenarios": len(lines)})
     # model-internal tie: Mgr.v (compared with the implementation above) vs Updater.run_session (GRecon over Sim.v's storages,
     # the object of flash_reconstruction_sound) on fresh-flash deliveries
@@ -82,5 +83,5 @@ def run(chk):
     return chk.finish(level="proof",
         rule="session-delivery stream: random geometry (fragment size classes around the 68-byte prefix, counts 1..40 (thorough: up to 300), slot sizes from 17409 B upward, erase blocks 64..512, 4/5/6 slots), "
              "optional prior history (confirmed / rejected / cancelled updates) so the session's slots lie anywhere in the ring, loss sets up to and beyond the capacity, orders (data-then-coded, shuffled, coded-first, trickle), duplicates, late data; "
-             "session-delivery-wide: 63..134 lost fragments (around the word boundaries of the bit rows), random or one contiguous outage, one-/two-byte fragments; session-delivery-reboot: the same generator (every fifth base with 9..40 losses) with drop + try_recover before one, two, a few and every fragment; non-trivial = completes or has losses; distinct by case text",
+             "session-delivery-wide: coded fragments numbered from 8375 .. 16000 on (PRBS seeds beyond 23 bits); 63..134 lost fragments (around the word boundaries of the bit rows), random or one contiguous outage, one-/two-byte fragments; session-delivery-reboot: the same generator (every fifth base with 9..40 losses) with drop + try_recover before one, two, a few and every fragment; non-trivial = completes or has losses; distinct by case text",
         trusted=core.TRUSTED_COMMON + ["C01: the sender-side encoder and CRC in fvlib/ts004.py are written from TS004 / the CRC catalogue, independently of the crates and of the Coq model"])
